@@ -143,6 +143,17 @@ Definition tip_getn (rv : bool) (b : block) (n : Z) : iobs := if n <? 0 then IPa
 (* the behaviour before fix 3becea6: getNAsU32 dispatched reverse to the forward iterator and vice versa *)
 Definition tip_getn_prefix (rv : bool) (b : block) (n : Z) : iobs := tip_getn (negb rv) b n.
 
+(* Bit64.Reverse: ^b on uint64;  Bit1024.Reverse: a NEW slice of the 16 reversed words *)
+Definition rev64 (w : Z) : Z := (Z.lnot w) mod 2 ^ 64.
+Definition brev (b : bitmap) : bitmap := map rev64 b.
+(* BigU32.Reverse / U32BitTip.Reverse: a new block over the same Start with the reversed bitmap; the receiver is not touched *)
+Definition block_reverse (b : block) : block := {| start := start b; bits := brev (bits b) |}.
+(* BigU32s.Reverse / U32BitTips.Reverse: nil for the empty list, otherwise element by element *)
+Definition blocks_reverse (bl : list block) : list block := map block_reverse bl.
+(* Bit1024.Equal *)
+Definition bequal (a b : bitmap) : bool :=
+  (fix go (x y : list Z) : bool := match x, y with [], [] => true | u :: x', v :: y' => (u =? v) && go x' y' | _, _ => false end) a b.
+
 (* running a list of further integers through SetI64 / SetU32: which were accepted, and the final block *)
 Fixpoint sets (st : block -> Z -> option block) (b : block) (us : list Z) : list bool * block :=
   match us with
